@@ -252,4 +252,73 @@ func edRequireDetail(typed, re *edDirs) string {
 	return "require-indirect"
 }
 
-func oracleC15(g *Gen, n int) { edOracleLoop(g, n, "c15-session", edCheckC15) }
+// c15RationaleShapes: line structures of an AddRetract rationale (small scope, all of them): none, one line, two
+// lines, two paragraphs (EMPTY line in the middle), paragraphs of several lines, two empty lines, an empty line first /
+// last, a whitespace-only line in the middle, only a line break.
+var c15RationaleShapes = []string{"", "r", "a\nb", "a\n\nb", "a\nb\n\nc\nd", "a\n\n\nb", "\na", "a\n", "a\n \nb", "\n"}
+
+// c15RationaleSweep — input class "rationale line structure x final placement of the new retract line", exhaustive on
+// a small scope and independent of the random stream. The clause "retractions WITH THEIR RATIONALE equal what a strict
+// parse of the formatted file yields" depends on how AddRetract's comment lines are grouped by the parser, and that
+// differs by placement: inside a `retract ( … )` block a blank line stays with the following line, at top level it
+// ends the comment group. So every shape is run through every way a created retraction can come to stand (a) as a
+// single top-level line — first retraction of the file, the only line put into an empty block, or the rest of its
+// block dropped later so that Cleanup collapses it — and (b) inside a block, and the property is checked after every
+// Cleanup of the history (each prefix is its own session). The starting files carry no block comments, so none of the
+// recorded retract-rationale findings (all of them: a commented retract block lends/merges ITS comment) is in scope.
+// Missing before: the rationale pool had no text with an empty line, and no sweep tied shapes to placements.
+func c15RationaleSweep(g *Gen) {
+	seen := map[string]bool{}
+	ret := func(lo, hi, rat string) edOp { return edOp{Name: "retract", A: []string{lo, hi, rat}} }
+	drop := func(lo, hi string) edOp { return edOp{Name: "dropretract", A: []string{lo, hi}} }
+	cl := edOp{Name: "cleanup"}
+	ivs := [][2]string{{"v1.2.0", "v1.2.0"}, {"v1.2.0", "v1.3.0"}}
+	type c15Hist struct {
+		file string
+		ops  []edOp
+	}
+	hists := func(add edOp, iv [2]string) []c15Hist {
+		return []c15Hist{
+			// first retraction of the file
+			{"module example.com/m\n\ngo 1.21\n", []edOp{add, cl, drop(iv[0], iv[1]), cl}},
+			// the only line of a formerly empty block
+			{"module example.com/m\n\nretract ()\n", []edOp{add, cl}},
+			// joins a single top-level line (a block is formed), which is dropped later
+			{"module example.com/m\n\nretract v1.0.0 // broken build\n", []edOp{add, cl, drop("v1.0.0", "v1.0.0"), cl, drop(iv[0], iv[1]), cl}},
+			// joins a block of two, both dropped later
+			{"module example.com/m\n\nretract (\n\tv1.0.0 // broken build\n\t[v1.1.0, v1.1.5] // data loss\n)\n",
+				[]edOp{add, cl, drop("v1.0.0", "v1.0.0"), cl, drop("v1.1.0", "v1.1.5"), cl, drop(iv[0], iv[1]), cl}},
+			// first retraction, then a second created one joins it, then either of the two is dropped
+			{"module example.com/m\n", []edOp{add, cl, ret("v1.5.0", "v1.5.0", "p\n\nq"), cl, drop(iv[0], iv[1]), cl}},
+			{"module example.com/m\n", []edOp{add, ret("v1.5.0", "v1.5.0", "other"), cl, drop("v1.5.0", "v1.5.0"), cl}},
+			// no module line, SortBlocks in between
+			{"go 1.21\n", []edOp{add, {Name: "sortblocks"}, cl}},
+		}
+	}
+	// placement outermost, so that the first input reported for a signature is the shortest history
+	for hi := range hists(cl, ivs[0]) {
+		for _, rat := range c15RationaleShapes {
+			for _, iv := range ivs {
+				h := hists(ret(iv[0], iv[1], rat), iv)[hi]
+				for k := range h.ops {
+					if h.ops[k].Name != "cleanup" {
+						continue
+					}
+					ops := h.ops[:k+1]
+					g.Case("c15-session:rationale-sweep")
+					sig, info := edCheckC15(false, h.file, ops)
+					if sig == "" || seen[sig] {
+						continue
+					}
+					seen[sig] = true
+					g.Fail(sig, info+" || file: "+strings.ReplaceAll(h.file, "\n", "\\n"), edSessionLine(false, h.file, ops))
+				}
+			}
+		}
+	}
+}
+
+func oracleC15(g *Gen, n int) {
+	c15RationaleSweep(g)
+	edOracleLoop(g, n, "c15-session", edCheckC15)
+}
